@@ -13,7 +13,16 @@ Histories / uses of the result (all plain data of the case or fixed per case):
    one (callbacks that re-enter the library during the outer walk); one value object under several keys; value objects changed in
    place (inner.set / del, Address.set_anycast) between serialisations of the same outer object; a fresh outer object agrees.
  * mirrored halves whose values are == yet written differently (Address with / without anycast).
-Not asserted: the particular cell layout (C10); exception types; what repr()/str() print.
+ * keys handed over as numbers that are not ints (sub-check number-keys-that-are-not-ints): Fraction / Decimal / float / bool / int
+   subclass / IntEnum member / __index__ object / registered numbers.Integral, through set, set_int_key, a key_serializer, map_= and
+   the .map attribute. The library may refuse such an object; what it takes must come back as an EQUAL key, and a value that is
+   negative or above 2^n - 1 (by however little: -1/2, 2^n - 1/2, -1/2^n ...) must not end up in the map under any key.
+ * maps whose tree is 340..450 forks deep (sub-check deep-trees; keys of 341..1023 bits that peel off one per level, labels of 0..2
+   bits between the forks): the whole check above, the library being entered from a fresh thread, i.e. from a shallow call stack.
+   (The library recurses two frames per level and reaches ~490 levels under the default recursion limit; deeper trees - TON allows
+   1022 - are not asked for: an interpreter limit, not changed by the harness.)
+Not asserted: the particular cell layout (C10); exception types; what repr()/str() print; key widths above 1023 bits (no such
+dictionary exists in TON); trees deeper than 450 forks.
 """
 from hypothesis import strategies as st
 from harness.core import Sub, Fail, call, exc_sig, describe, look
@@ -24,7 +33,12 @@ RULE = ('case = key width n, list of (key, value) in insertion order, key form (
         'invalid-key case; distinct = distinct case. every map case also reads the values as slices (no value deserializer) after the '
         'result was printed (repr/str/format of the dict and of single values), re-serialises a printed from_cell map and a printed '
         'map object. maps-of-maps: outer width, inner width, 1-4 inner maps (or addresses) shared among <= 8 outer keys, 0-4 in-place '
-        'changes of the value objects between serialisations; value callbacks call HashMap.serialize / load_dict themselves')
+        'changes of the value objects between serialisations; value callbacks call HashMap.serialize / load_dict themselves. '
+        'number-keys: grid of width x kind of number (Fraction, Decimal, float, bool, int subclass, IntEnum, __index__ object, registered '
+        'Integral) x value p/q (just below 0 / just above 2^n - 1 at distances 1/2, 1/3, 2/3, 1/2^n; far outside; between two keys; the '
+        'integers -1, 2^n, 0, 1, 2^n - 1 ...) x route (set, set_int_key, key_serializer, map_=, .map[...]) into an empty map or one that holds '
+        'the end keys. deep-trees: spine of 340 / 400 / 450 forks (left, right, zigzag, random turns), off-spine leaves with uniform or mixed '
+        'tails, 0-2 label bits between forks, key form int / bits / key_serializer, run from a fresh thread')
 ASSUMPTIONS = ['python dict as the model of a finite map']
 
 
@@ -657,6 +671,234 @@ def nt(case):
     return cnt == 1 or _shares_prefix(case)
 
 
+
+# -- keys given as numbers that are not ints -------------------------------------------------------------------------------------
+
+NUM_KINDS = ('fraction', 'decimal', 'float', 'bool', 'int-subclass', 'int-enum', 'index-object', 'registered-integral')
+
+
+def _number(kind, p, q):
+    """the caller's key object: the number p/q as a Fraction / Decimal / float (nearest one; +-inf beyond the float range), or the
+    integer p as a bool, an int subclass instance, an IntEnum member, an object with __index__, a numbers.Integral by registration"""
+    from fractions import Fraction
+    if kind == 'fraction':
+        return Fraction(p, q)
+    if kind == 'decimal':
+        from decimal import Decimal
+        ip, rem = divmod(abs(p), q)
+        return Decimal(('-' if p < 0 else '') + str(ip) + '.' + str(rem * 10 ** 8 // q).zfill(8))      # exact whatever the context
+    if kind == 'float':
+        try:
+            return float(Fraction(p, q))
+        except OverflowError:
+            return float('inf') if p > 0 else float('-inf')
+    if kind == 'bool':
+        return bool(p)
+    if kind == 'int-subclass':
+        return type('Key', (int,), {})(p)
+    if kind == 'int-enum':
+        import enum
+        return enum.IntEnum('Op', {'member': p}).member
+    cls = type('Idx', (), {'__init__': lambda self, v: setattr(self, 'v', v), '__index__': lambda self: self.v,
+                           '__hash__': lambda self: hash(self.v), '__eq__': lambda self, o: self is o})
+    if kind == 'registered-integral':
+        import numbers
+        cls.__int__ = lambda self: self.v
+        numbers.Integral.register(cls)
+    return cls(p)
+
+
+def _exact(kind, x):
+    """exact value of the key object as a Fraction, or +-inf"""
+    from fractions import Fraction
+    if kind == 'float' and x in (float('inf'), float('-inf')):
+        return x
+    if kind in ('fraction', 'decimal', 'float'):
+        return Fraction(x)
+    if kind in ('index-object', 'registered-integral'):
+        return Fraction(x.v)
+    return Fraction(int.__index__(x) if kind != 'bool' else int(x))
+
+
+def _num_class(n, val):
+    if val < 0:
+        return 'negative'
+    if val > (1 << n) - 1:
+        return 'too-large'
+    return 'fits' if val.denominator == 1 else 'between-two-keys'
+
+
+def check_numkeys(case):
+    """a key handed over as a number that is not an int (class of use: Fraction / Decimal / float / bool / int subclass / IntEnum /
+    __index__ object where an int is meant), through every way a key gets into a map. Whether the library takes such an object at all
+    is its choice; but a value that is negative or above 2^n - 1 is never stored (as whichever key), and a key that IS taken comes
+    back as an equal key (round trip) - so a value between two keys cannot be taken silently either."""
+    from pytoniq_core.boc.hashmap.hashmap import HashMap
+    n, kind, route = case['n'], case['kind'], case['route']
+    x = _number(kind, case['p'], case['q'])
+    val = _exact(kind, x)
+    cls = _num_class(n, val)
+    hm, des = _mk(n, 'uint')
+    model = {}
+    for k, v in case['pairs']:
+        hm.set(k, v)
+        model[k] = v
+    if route == 'set':
+        ok, r = call(hm.set, x, 12345)
+    elif route == 'set_int_key':
+        ok, r = call(hm.set_int_key, x, 12345)
+    elif route == 'keyser':                 # the caller's key_serializer hands the number on
+        hm.key_serializer = lambda key: key[0]
+        ok, r = call(hm.set, [x], 12345)
+    elif route == 'map_':
+        d = {x: 12345, **{k: v for k, v in hm.map.items() if k != x}} if case.get('first') else {**hm.map, x: 12345}
+        ok, r = call(lambda: HashMap(n, map_=d).with_uint_values(32))
+        if ok:
+            hm = r
+    else:
+        hm.map[x] = 12345
+        ok = True
+    if not ok:
+        return None
+    ok, cell = call(hm.serialize)
+    if not ok:
+        return None
+    ok, got = call(lambda: cell.begin_parse().load_hashmap(n, value_deserializer=des))
+    what = f'n={n}: {x!r} (= {val}) taken as a key through {route}; the map {model} then parses back as {got if ok else got!r}'[:600]
+    if cls == 'fits':
+        exp = dict(model)
+        exp[int(val)] = 12345
+        if not ok or got != exp or list(got) != sorted(exp):
+            return Fail(f'number-key-stored-under-another-key/{kind}', what)
+        return None
+    if cls == 'between-two-keys':
+        return Fail(f'number-key-silently-rounded-to-another-key/{kind}', what)
+    return Fail(f'invalid-key-accepted/{cls}/as-{kind}', what)
+
+
+def enum_numkeys(tier):
+    widths = [1, 2, 3, 8, 16, 53, 64, 256, 267, 1023] + ([4, 5, 7, 15, 32, 52, 54, 63, 65, 128, 512, 1022] if tier == 'thorough' else [])
+    for n in widths:
+        top = (1 << n) - 1
+        ends = [[k, 100 + i] for i, k in enumerate(sorted({k for k in (0, 1, top - 1, top) if 0 <= k <= top}))]
+        # p/q: just outside the key range on either side (at several distances from the nearest key, so that truncation, floor, ceiling
+        # and rounding each alias at least one of them), far outside, between two keys, and the integers themselves
+        fractional = [(-1, 2), (-1, 3), (-2, 3), (-top, top + 1), (-3, 2), (-1, 1 << 40), (-2 * top - 1, 2), (-(top + 1) * 2 + 1, 2),
+                      (2 * top + 1, 2), (3 * top + 1, 3), (3 * top + 2, 3), (top * (top + 1) + 1, top + 1), (2 * top + 3, 2), (4 * top + 3, 2),
+                      (1, 2), (2 * top - 1, 2), (1, 3)]
+        integral = [(-1, 1), (-top - 1, 1), (-(1 << (n + 8)), 1), (top + 1, 1), (2 * top + 1, 1), (1 << (n + 8), 1), (0, 1), (1, 1), (top, 1), (top >> 1, 1)]
+        i = 0
+        for kind in NUM_KINDS:
+            vals = [(0, 1), (1, 1)] if kind == 'bool' else integral if kind not in ('fraction', 'decimal', 'float') else fractional + integral
+            for p, q in vals:
+                for route in ('set', 'set_int_key', 'keyser', 'map_', 'item'):
+                    i += 1
+                    yield {'n': n, 'kind': kind, 'p': p, 'q': q, 'route': route, 'first': i % 2, 'pairs': ends if i % 3 else []}
+
+
+def classify_numkeys(case):
+    yield 'number=' + case['kind']
+    yield 'route=' + case['route']
+    yield 'value=' + _num_class(case['n'], _exact(case['kind'], _number(case['kind'], case['p'], case['q'])))
+    yield 'n=' + (str(case['n']) if case['n'] <= 8 else '9-64' if case['n'] <= 64 else '65-267' if case['n'] <= 267 else '268-1023')
+
+
+# -- dictionaries that are hundreds of forks deep --------------------------------------------------------------------------------
+
+def _shallow(fn, *a):
+    """fn(*a) on a thread of its own: the library is entered from a call stack a few frames deep, however deep the harness's own
+    stack is at this point (Hypothesis, replay, a thread pool ...). Exceptions come back with their traceback."""
+    import threading
+    box = []
+
+    def run():
+        try:
+            box.append((True, fn(*a)))
+        except BaseException as e:
+            box.append((False, e))
+    t = threading.Thread(target=run, daemon=True)
+    t.start()
+    t.join()
+    if not box[0][0]:
+        raise box[0][1]
+    return box[0][1]
+
+
+def _deep_keys(d, n, side, gap, tail, seed):
+    """key set (ints below 2^n) whose Patricia tree has a spine of d forks: at each of them one child continues the spine, the other is
+    a leaf (sometimes a fork of two leaves); `gap` = longest label between two forks of the spine, `tail` = how the leaves' keys end"""
+    import hashlib
+    stream, blocks = [], [0]
+
+    def nxt(mod):
+        if not stream:
+            blocks[0] += 1
+            stream.extend(hashlib.sha256(f'{d}/{n}/{side}/{gap}/{tail}/{seed}/{blocks[0]}'.encode()).digest())
+        return stream.pop() % mod
+
+    def fill(length, i):
+        if tail == 'zeros':
+            return '0' * length
+        if tail == 'ones':
+            return '1' * length
+        if tail == 'alternate':
+            return ('0' if i % 2 else '1') * length
+        return ''.join('01'[nxt(2)] for _ in range(length))
+    keys = []
+    prefix = ''
+    budget = n - d
+    for i in range(d):
+        li = min(budget, nxt(gap + 1)) if gap else 0
+        budget -= li
+        prefix += ''.join('01'[nxt(2)] for _ in range(li))
+        s = {'left': '0', 'right': '1', 'zigzag': '01'[i % 2]}.get(side) or '01'[nxt(2)]
+        off = prefix + ('1' if s == '0' else '0')
+        t = fill(n - len(off), i)
+        keys.append(off + t)
+        if t and nxt(5) == 0:
+            keys.append(off + t[:-1] + ('1' if t[-1] == '0' else '0'))
+        prefix += s
+    keys.append(prefix + fill(n - len(prefix), d))
+    return [int(k, 2) for k in keys]
+
+
+def _deep_case(case):
+    keys = _deep_keys(case['deep'], case['n'], case['side'], case['gap'], case['tail'], case['seed'])
+    order = keys if case['seed'] % 3 == 0 else keys[::-1] if case['seed'] % 3 == 1 else keys[1::2] + keys[0::2]
+    return {'n': case['n'], 'v': case['v'], 'form': case['form'], 'pairs': [[k, (k * 31 + case['seed']) & 0xFFFFFFFF] for k in order]}
+
+
+def check_deep(case):
+    """a map whose tree is hundreds of forks deep (TON allows 1022; the library walks the tree recursively, two Python frames per
+    level in the writer and in the parsers, and gets to ~490 levels under the default recursion limit when it is entered from a
+    shallow stack - depths up to 450 are asked for here): the whole round-trip check of `check`, entered from a fresh thread"""
+    res = _shallow(check, _deep_case(case))
+    if res is not None:
+        return Fail('deep-tree/' + res.signature, f'{case}: {res.detail}'[:1500])
+    return None
+
+
+def enum_deep(tier):
+    pat = lambda d: ((0, 'zeros', d + 1), (0, 'mixed', d + 1), (1, 'ones', 1023), (2, 'mixed', min(960, 2 * d)), (0, 'alternate', d + 17))
+    sides = ('left', 'right', 'zigzag', 'random')
+    if tier == 'thorough':
+        grid = [(d, side, p) for d in (300, 340, 360, 380, 400, 420, 440, 450) for side in sides for p in range(5)]
+    else:           # every depth, side and label pattern at least once; one case per shard
+        grid = [(340, 'left', 0), (340, 'random', 3), (400, 'right', 1), (400, 'zigzag', 2), (400, 'random', 4), (450, 'left', 2),
+                (450, 'zigzag', 0), (450, 'random', 3)]
+    for i, (d, side, p) in enumerate(grid):
+        gap, tail, n = pat(d)[p]
+        yield {'deep': d, 'n': n, 'side': side, 'gap': gap, 'tail': tail, 'seed': i, 'v': ['uint', 'cell', 'coins', 'int'][i % 4],
+               'form': ['int', 'bits', 'keyser'][i % 3]}
+
+
+def classify_deep(case):
+    yield 'forks-on-the-longest-path=%d' % case['deep']
+    yield 'spine=' + case['side']
+    yield 'labels-between-forks<=%d' % case['gap']
+    yield 'n=' + ('268-1023' if case['n'] > 267 else '65-267')
+
+
 SUBCHECKS = [
     Sub('all-key-subsets-small-widths', check, enum=enum_subsets, classify=classify, nontrivial=nt, shards=(8, 32), exhaustive=True,
         note='every non-empty... and the empty key subset for widths 1..3 (quick) and 4 (thorough)'),
@@ -669,6 +911,11 @@ SUBCHECKS = [
         note='value writer / reader callbacks that serialise / parse another map; one value object under several keys; value objects changed '
              'in place (inner.set / del, Address.set_anycast) between serialisations of the same outer object'),
     Sub('invalid-keys', check_invalid, strategy=lambda tier: st_invalid(), classify=classify, nontrivial=nt, n=(1500, 20000), shards=(8, 16)),
+    Sub('number-keys-that-are-not-ints', check_numkeys, enum=enum_numkeys, classify=classify_numkeys, nontrivial=lambda c: True, shards=(8, 16),
+        note='grid: width x kind of number (Fraction, Decimal, float, bool, int subclass, IntEnum, __index__ object, registered Integral) x '
+                              'value (just outside the key range on either side, far outside, between two keys, the integers) x route into the map'),
+    Sub('deep-trees', check_deep, enum=enum_deep, classify=classify_deep, nontrivial=lambda c: True, shards=(8, 16), case_cpu_s=60.0,
+        note='maps whose tree has a path of 340..450 forks (keys of 341..1023 bits), the library entered from a fresh thread (a shallow stack)'),
 ]
 
 # the same generated cases, several at a time, checked by threads that run at the same time (core.run_overlapping): per-call state
